@@ -159,6 +159,58 @@ def probe (sp : Spec) (j : Json) : Json :=
     resJ subJ (sp.subset (orderingOf (jstr j "ordering")) (parsedOf (jval j "spec")))
   | k => jerr ("unknown probe " ++ k)
 
+/-! ### histories of accessor calls on the cached mappings -/
+
+def keyOf (j : Json) : Key :=
+  match jstr j "k" with
+  | "term" => .term (mkTerm (termOf (jval j "t")))
+  | _ => .str (sOf (jval j "s"))
+
+def anyIdentOf (j : Json) : AnyIdent :=
+  match jstr j "k" with
+  | "term" => .term (mkTerm (termOf (jval j "t")))
+  | "str" => .str (sOf (jval j "s"))
+  | _ => identOf j
+
+def opOf (j : Json) : Op :=
+  match jstr j "op" with
+  | "ti" => .tiItem (keyOf (jval j "key"))
+  | "ti_get" => .tiGet (keyOf (jval j "key"))
+  | "ti_in" => .tiIn (keyOf (jval j "key"))
+  | "ts" => .tsItem (keyOf (jval j "key"))
+  | "ts_get" => .tsGet (keyOf (jval j "key"))
+  | "ts_in" => .tsIn (keyOf (jval j "key"))
+  | "gs" => .slice (anyIdentOf (jval j "key"))
+  | "tidx" => .termIdx (orderingOf (jstr j "ordering")) (parsedOf (jval j "spec"))
+  | "ci" => .colItem (sOf (jval j "s"))
+  | "cols" => .colIdx ((jarr j "names").map sOf)
+  | "vi" => .varItem (sOf (jval j "s"))
+  | _ => .varIdx ((jarr j "names").map sOf)
+
+def opValJ : OpVal → Json
+  | .nats xs => natsJ xs
+  | .optNats xs => optNullJ natsJ xs
+  | .range r => sliceJ r
+  | .optRange r => optNullJ sliceJ r
+  | .bool b => Json.bool b
+  | .pyslice p => pySliceJ p
+  | .nat n => Json.num (n : Nat)
+
+def stateJ (s : SpecState) : Json :=
+  Json.mkObj [
+    ("term_indices", jlist (s.ti.map (fun e => jlist [termJ e.1, natsJ e.2]))),
+    ("term_slices", jlist (s.ts.map (fun e => jlist [termJ e.1, sliceJ e.2]))),
+    ("column_indices", jlist (s.ci.map (fun e => jlist [sJ e.1, Json.num (e.2 : Nat)]))),
+    ("term_variables", jlist (s.tv.map (fun e => jlist [termJ e.1, varsJ e.2])))]
+
+/-- run the forwarded history on the state of the materialized spec: outcomes and final state -/
+def historyJ (sp : Spec) (ops : List Json) : Json :=
+  match sp.structure? with
+  | none => Json.null
+  | some st =>
+    let r := (SpecState.init sp.formula st).run (ops.map opOf)
+    Json.mkObj [("out", jlist (r.2.map (resJ opValJ))), ("after", stateJ r.1)]
+
 def handleMeta (j : Json) : Json :=
   let sp := specOf j
   let mode := combineMode (matOf (jstr j "materializer")) (outOf (jstr j "output"))
@@ -189,7 +241,8 @@ def handleMeta (j : Json) : Json :=
         (match e.1 with | some s => 's' :: s | none => ['n'], jlist [optStrJ e.1, strsJ e.2])))).map (·.2)))
       (sp.attr variablesBySource)),
     ("required_variables", resJ strsJ (sp.attr requiredVariables)),
-    ("probes", jlist ((jarr j "probes").map (probe sp)))]
+    ("probes", jlist ((jarr j "probes").map (probe sp))),
+    ("history", historyJ sp (jarr j "history"))]
 
 /-! ### `ModelSpecs` -/
 
